@@ -46,6 +46,32 @@ def run(ctx):
         ctx.ob("R-ENUM", dc, f"dual maps every operator ({form} form)", bool(it_ok and src_ok and not filt),
                "all operators of the family are mapped, none filtered" if it_ok and src_ok and not filt else "the comprehension skips or re-sources operators", rn)
     ctx.ob("R-COV", dc, "both Kraus forms handled", n_kraus >= 2 or None, f"{n_kraus} Kraus-form returns", required=False)
+    # a nested list is flattened (treated as a completely positive family) only when the shared classifier says it is flat:
+    # a single pair [[A, B]] (len 1 x 2) is a general map X -> A X B^+, not the CP family {A, B}
+    from .C04 import canonical_classifier, classifier_table
+    from ..rules import rename_term
+    flat_tab = classifier_table(canonical_classifier())
+    for n in walk_no_nested(dc.node):
+        if isinstance(n, ast.If):
+            t = rename_term(N(n.test), {"phi_op": "PHI"})
+            tab = classifier_table(t)
+            if tab is None or "builtins.len" not in repr(t):
+                continue
+            # which arm keeps the pairs (returns / builds a nested comprehension)?
+            def keeps_pairs(blk):
+                return any(isinstance(x, ast.ListComp) and isinstance(x.elt, ast.ListComp) for st in blk for x in ast.walk(st))
+            if keeps_pairs(n.body):
+                flatten_tab = tuple(not v for v in tab)
+            elif keeps_pairs(n.orelse):
+                flatten_tab = tab
+            else:
+                continue
+            okf = all((not fl) or cf for fl, cf in zip(flatten_tab, flat_tab))
+            ctx.ob("R-SIB", dc, "nested lists are flattened only where the shared classifier calls them flat", okf,
+                   "flattening condition implies the classifier" if okf else
+                   f"`{unparse(n.test)}`: some nested list that is NOT a flat CP family under the shared classifier (e.g. a single pair [[A, B]]) is flattened, so the dual of "
+                   "X -> A X B^+ is returned as the CP family {A^+, B^+}", n)
+
     # Choi branch
     sw = calls_from(m, dc, "swap.swap")
     if not sw:
